@@ -249,7 +249,7 @@ PROPS = {
     ),
     'C01': dict(
         title='providedBy/implementedBy report exactly the declared and inherited interfaces',
-        contracts=['C02_spec', 'C01_decl', 'C02_c'], cfun=['C01_c', 'C02_c'], falsifier='C01', modes=['py', 'c'], level='other',
+        contracts=['C02_spec', 'C01_decl', 'C02_c', 'C01_impl'], cfun=['C01_c', 'C02_c'], falsifier='C01', modes=['py', 'c'], level='other',
         level_text_extra=' The C twins are verified from the clang AST of the real file: getObjectSpecification and providedBy against the SAME postconditions '
                          'as the Python functions (attribute-protocol oracles shared), implementedBy as a fast path in front of the Python implementedBy '
                          '(an Implements in the own class dictionary, else a registered builtin specification, else -- super proxies, unreadable '
@@ -267,12 +267,19 @@ PROPS = {
                    'built from its class and the (re-)declared interfaces, no other object is re-declared, class declarations are '
                    'untouched". The literal clause "only interfaces redundant NOW are dropped" is PROVED for declarations not taken from '
                    'the shared cache and fails unrestricted (KNOWN-FINDING). The propagation to every dependent specification is the C02 '
-                   'contract of __setBases/changed. implementedBy/providedBy themselves (attribute protocol, builtin and proxy fallbacks), '
-                   'the class-as-object branch (ClassProvides) and the end-to-end statement over histories are checked bounded '
-                   '(random histories <=9 steps, layered class DAGs of 5..9 classes, both implementations).',
-        level_note='implementedBy is an assumed pure lookup in these contracts; object shapes restricted to plain instances of plain '
-                   'classes; _normalizeargs by assumed flattening facts; one known finding (stale shared instance declaration).',
-        explanation='declaration functions proved against two-sided membership bounds; query functions and histories bounded; one recorded defect',
+                   'contract of __setBases/changed. The Python implementedBy is verified from its real body (contracts/C01_impl.py): a super proxy '
+                   'goes to _implementedBy_super; the class specification on record (own class dictionary, else the table of builtin '
+                   'specifications) is returned as it is and nothing changes; otherwise a fresh specification is created, RECORDED for the '
+                   'class (in the table when the class takes no attributes) and returned, it inherits from the class and its bases are exactly '
+                   'the recorded specifications of the base classes (created on the way, recursion through its own contract); a recorded '
+                   'specification is never replaced and no existing one is touched. providedBy / getObjectSpecification / the descriptors '
+                   'follow the documented attribute order (above). The old-style and proxy fallbacks, the class-as-object branch '
+                   '(ClassProvides) and the end-to-end statement over histories are checked bounded '
+                   '(random histories <=9 steps, layered class DAGs of 5..9 classes, exhaustive class-level sequences, both implementations).',
+        level_note='inside the declaration contracts implementedBy is used as a pure lookup of the recorded specification (its body is verified '
+                   'separately, C01_impl); object shapes restricted to plain instances of plain classes (readable class dictionary, no old-style '
+                   'declarations); _normalizeargs verified under C20; one known finding (stale shared instance declaration).',
+        explanation='declaration functions proved against two-sided membership bounds, implementedBy against record-or-create; composition over histories bounded; one recorded defect',
     ),
     'C02': dict(
         title='extends/isOrExtends equal reachability over current bases, after any rebasing',
@@ -376,7 +383,7 @@ PROPS = {
     ),
     'C19': dict(
         title='super() proxies see only the remainder of the MRO',
-        contracts=['C19_super', 'C01_decl'], cfun=['C01_c'], falsifier='C19', modes=['py', 'c'], level='other',
+        contracts=['C19_super', 'C01_decl', 'C01_impl'], cfun=['C01_c'], falsifier='C19', modes=['py', 'c'], level='other',
         level_text_extra=' C side (contracts/C01_c.py, from the clang AST): providedBy answers a super proxy by implementedBy alone and the C implementedBy hands '
                          'every super proxy to the Python fallback (_implementedBy_super, verified above) without looking at any dictionary.',
         only={'C01_decl': ['declarations.py:providedBy', 'declarations.py:getObjectSpecification', 'declarations.py:ObjectSpecificationDescriptor.__get__']},
@@ -387,10 +394,12 @@ PROPS = {
                    "on the class of the object is followed); the Python providedBy answers a super proxy through implementedBy alone, "
                    "never through __providedBy__/__provides__ of the proxy (what the underlying object directly provides is not "
                    "consulted), getObjectSpecification and the __providedBy__ descriptor follow the documented attribute order. "
-                   "adapter_hook passes the underlying object to the factory (C08 contracts). The dispatch inside implementedBy, the C "
-                   "branches and the follow-up of changes on OTHER classes of the MRO are checked bounded on random class DAGs.",
-        level_note="implementedBy of plain classes and Implements.named are assumed contracts (C01, C02); C branches bounded.",
-        explanation='the super specification builder proved; dispatch and C twins bounded',
+                   "adapter_hook passes the underlying object to the factory (C08 contracts). The dispatch inside the Python implementedBy is "
+                   "verified (contracts/C01_impl.py: a super proxy goes to _implementedBy_super before any dictionary is looked at). The "
+                   "follow-up of changes on OTHER classes of the MRO is checked bounded on random class DAGs (also as the very first question "
+                   "asked about an instance).",
+        level_note="Implements.named is an assumed constructor contract (C02); implementedBy of plain classes verified under C01_impl.",
+        explanation='the super specification builder and the dispatch in both implementations proved; histories bounded',
     ),
     'C20': dict(
         title='Declaration algebra: iteration, membership, + and - obey ordered-set laws',
@@ -434,7 +443,7 @@ PROPS = {
     ),
     'C10': dict(
         title='The C accelerator is observationally equivalent to the Python reference',
-        contracts=[], cfun=['C12_c', 'C14_c', 'C05_c', 'C06_c', 'C02_c', 'C01_c'], falsifier='C10', modes=['py', 'c'], level='other', differential=True,
+        contracts=['C01_impl'], cfun=['C12_c', 'C14_c', 'C05_c', 'C06_c', 'C02_c', 'C01_c'], falsifier='C10', modes=['py', 'c'], level='other', differential=True,
         cfunctions=['_subcache', '_getcache', '_lookup', '_lookup1', '_adapter_hook', '_lookupAll', '_subscriptions', 'IB__adapt__', 'SB_extends', 'SB_providedBy', 'SB_implementedBy',
                     '_generations_tuple', '_verify', 'verify_changed'],
         creturns={'_subcache': 'borrowed', '_getcache': 'borrowed', '_verify': 'int'},
@@ -448,7 +457,7 @@ PROPS = {
                    'LookupBase twins (cache-soundness invariant and result clauses, C05/C08), _verify/verify_changed/VB_* and the VerifyingBase '
                    'twins (generation snapshot, C06), SB_extends/SB__call__/SB_providedBy/SB_implementedBy and the SpecificationBase twins '
                    '(membership in _implied, C02), getObjectSpecification and providedBy against the postconditions of the Python functions, '
-                   'implementedBy as fast path in front of the Python fallback, OSD_descr_get against ObjectSpecificationDescriptor.__get__ and '
+                   'implementedBy as fast path in front of the Python fallback (whose body is verified: record-or-create, contracts/C01_impl.py), OSD_descr_get against ObjectSpecificationDescriptor.__get__ and '
                    'CPB_descr_get against ClassProvidesBase.__get__ (C01); more pairs are listed in the evidence as they are added. '
                    'The ownership obligations of the C functions (see C11) are discharged as part of this check.',
         level_note='equivalence of the twins that are not listed as verified pairs is bounded (fixed programs and argument pool): IB__init__ (the C code also clears the specification slots, the Python code does not: re-initialising a live interface is not a supported operation), and the agreement of the Python '
